@@ -968,6 +968,89 @@ def _bind(ex, qual, args, kwargs, skip_self=False):
     return out
 
 
+# ----------------------------------------------------------------------------------------------
+def front_wiring(rep, ex: Explorer):
+    """FRONT.wiring on c_inference_pareto_front: the front is enumerated over the constraint system of *this* base
+    (c-inference state, preprocessed before the constraints are read), minimising exactly the impact of every
+    conditional, and every returned vector reads, position by position, the impact of that conditional from one solution."""
+    from ..harness import make_belief_base, KEYS_D
+
+    qual = "inference.c_revision.c_inference_pareto_front"
+    site = fn_label(ex.prog, qual)
+    SOL = ("members", ("solutions",))
+    held = {}
+
+    def ces(I, fi, args, kwargs, node):
+        I.log("front.state", node, args=tuple(args), kwargs=dict(kwargs))
+        return Sym(("ES",))
+
+    def cinf(I, fi, args, kwargs, node):
+        I.log("front.operator", node, args=tuple(args))
+        return I.alloc(HObj("inference.c_inference.CInference", {"epistemic_state": args[0] if args else Const(None), "base_csp": Sym(("unprocessed",))}))
+
+    def pre(I, fi, args, kwargs, node):
+        I.log("front.preprocess", node, args=tuple(args))
+        I.deref(args[0]).attrs["base_csp"] = Sym(("BASECSP",))
+        return Const(None)
+
+    def spf(I, fi, args, kwargs, node):
+        I.log("front.solve", node, args=tuple(args), kwargs=dict(kwargs), views=tuple(view(I.state, a) for a in args))
+        b = I.fresh_var("sol")
+        return I.alloc(HList([("each", b, SOL, PTRUE, ElemV(b, "optional", "dict"))]))
+
+    summ = {"inference.inference_manager.create_epistemic_state": ces, "inference.c_inference.CInference": cinf,
+            "inference.inference.Inference.preprocess_belief_base": pre, "inference.c_revision.solve_pareto_front": spf}
+
+    def setup(I):
+        bb = make_belief_base(I)
+        held["bb"] = bb
+        return [bb], {"max_solutions": Sym("maxsol")}
+
+    paths = ex.run(qual, setup, summaries=summ, key="front-wiring")
+    n = 0
+    for p in paths:
+        if p.outcome[0] != "return":
+            rep.violation("FRONT.wiring", site, "outcome", "the enumeration of the front returns a list for every base", extracted=f"{p.outcome[0]} {p.outcome[1]!r}"[:100], required="return", function=site)
+            continue
+        n += 1
+        evs = [ev for ev, Q in iter_events(p.events)]
+        st = [e for e in evs if e.kind == "front.state"]
+        op = [e for e in evs if e.kind == "front.operator"]
+        so = [e for e in evs if e.kind == "front.solve"]
+        oks = len(st) == 1 and len(st[0].args) >= 2 and st[0].args[0] == held["bb"] and st[0].args[1] == Const("c-inference")
+        wk = (st[0].kwargs.get("weakly") if st else None) or (st[0].args[4] if st and len(st[0].args) > 4 else None)
+        oks = oks and wk == Const(False)
+        rep.check(oks, "FRONT.wiring", site, "state", "the constraint system is that of c-inference over the given base (strict mode)", extracted=repr(st[0].args[:2]) + f" weakly={wk!r}" if st else "none", required="(base, 'c-inference'), weakly=False", function=site)
+        oko = len(op) == 1 and op[0].args[:1] == (Sym(("ES",)),)
+        rep.check(oko, "FRONT.wiring", site, "operator", "the operator is built on that state", extracted=repr(op[0].args) if op else "none", required="CInference(state)", function=site)
+        if len(so) != 1:
+            rep.violation("FRONT.wiring", site, "enumeration", "the front is produced by one call of the verified enumeration", extracted=f"{len(so)} calls", required="1", function=site)
+            continue
+        a, kw, vw = so[0].args, so[0].kwargs, so[0].views
+        rep.check(len(a) >= 1 and a[0] == Sym(("BASECSP",)), "FRONT.wiring", f"{site}:{so[0].node.lineno}", "constraints", "the constraints handed to the enumeration are the base constraints after preprocessing",
+                  extracted=repr(a[0]) if a else "none", required="base_csp of the preprocessed operator", function=site)
+        mv = vw[1] if len(vw) > 1 else None
+        okm = False
+        if isinstance(mv, tuple) and mv[0] == "list" and len(mv[1]) == 1 and mv[1][0][0] == "each":
+            _, b, fam, g, item = mv[1][0]
+            okm = fam == KEYS_D and g == PTRUE and desc(item) == ("name", ("eta_", ("elem", b, "key")))
+        rep.check(okm, "FRONT.wiring", f"{site}:{so[0].node.lineno}", "objectives", "exactly the impacts eta_i of all conditionals of the base are minimised", extracted=repr(mv)[:160], required="eta_i for every key i", function=site)
+        ms = kw.get("max_solutions", a[2] if len(a) > 2 else None)
+        rep.check(ms in (Sym("maxsol"), None, Const(None)), "FRONT.wiring", f"{site}:{so[0].node.lineno}", "cap", "no cap on the number of solutions other than the caller's is applied", extracted=repr(ms), required="max_solutions (or none)", function=site)
+        rv = view(p.state, p.outcome[1])
+        okr = False
+        if isinstance(rv, tuple) and rv[0] == "list" and len(rv[1]) == 1 and rv[1][0][0] == "each":
+            _, sb, fam, g, inner = rv[1][0]
+            if fam == SOL and g == PTRUE and isinstance(inner, tuple) and inner[0] in ("list", "tuple") and len(inner[1]) == 1 and inner[1][0][0] == "each":
+                _, kb, fam2, g2, cell = inner[1][0]
+                want = ("mcall", ("elem", sb, "optional"), "get", (("name", ("eta_", ("elem", kb, "key"))), ("c", 0)))
+                okr = fam2 == KEYS_D and g2 == PTRUE and tuple(desc(cell)[:4]) == want
+        rep.check(okr, "FRONT.wiring", site, "vectors", "one vector per solution; its entry for conditional i is that solution's value of eta_i (0 when the optimiser left it out)",
+                  extracted=repr(rv)[:200], required="[ (sol.get(eta_i, 0) for every key i) for every solution ]", function=site)
+    rep.floor("front enumeration paths", n, 1)
+    return {"front_paths": n}
+
+
 def entry(rep, ex: Explorer):
     """REV.entry on c_revision / c_revision_pareto_front: which compilation is used, argument wiring into the translation
     (directly or through the incremental model), the variables minimised, the values patched into the result."""
